@@ -321,7 +321,7 @@ def _gen_seek(rng, n, pos, bounds, negative=False):
         b = rng.choice(bounds)
         r = rng.random()
         if r < 0.35:
-            cand = [rng.randint(0, n), rng.randint(0, n), rng.randint(0, max(0, pos))]
+            cand = [rng.randint(0, n), rng.randint(min(pos, n), n), rng.randint(0, max(0, pos))]
         elif r < 0.60:
             cand = [b, b - 1, b + 1, b + 2, b - 100]
         elif r < 0.80:
@@ -466,8 +466,8 @@ def _combos(rng):
 def _gen_cases(rng, mode):
     """mode: quick | thorough | search"""
     if mode == "quick":
-        rounds, lengths, nseq, maxlen, budget, cap = 2, _LEN_QUICK, 3, 25, 80_000_000, 48
-        n_random, n_tuned, n_mal, tiny_rounds = 40, 8, 48, 1
+        rounds, lengths, nseq, maxlen, budget, cap = 3, _LEN_QUICK, 3, 25, 80_000_000, 48
+        n_random, n_tuned, n_mal, tiny_rounds = 60, 12, 60, 1
     elif mode == "thorough":
         rounds, lengths, nseq, maxlen, budget, cap = 3, _LEN_QUICK + _LEN_MORE, 4, 200, 200_000_000, 300
         n_random, n_tuned, n_mal, tiny_rounds = 160, 36, 240, 2
